@@ -1148,7 +1148,7 @@ pub fn run(ctx: &mut Ctx) {
             steps.push(Step::DelGrp(1));
         }
         steps.extend([Step::Commit, Step::Add(4), Step::Commit]);
-        let h = Hist { threads: 2, merge_policy: false, cut_docs: 2, sorted: true, steps };
+        let h = Hist { threads: 1, merge_policy: false, cut_docs: 2, sorted: true, steps };
         check_history(ctx, &h, None);
     }
     // A: plain histories
